@@ -272,6 +272,24 @@ func runSeq(c seqCase) (what string, compared int) {
 		}
 		cur = sibs[0]
 	}
+	// a line far longer than the initial buffer estimate, then ordinary records through the same pooled text handler
+	for _, size := range []int{300, 5_000, 17_000, 70_000} {
+		big := slog.NewRecord(time.Time{}, slog.LevelError, "big", 0)
+		big.AddAttrs(slog.String("blob", strings.Repeat("B", size)))
+		for k := 0; k < 3; k++ {
+			rr := big
+			if k > 0 {
+				rr = mkRecord(slog.LevelInfo, "after-big", k, c.Salt+k, false)
+			}
+			w, cmp := logThrough(rec, o, cur, rr)
+			if cmp {
+				compared++
+			}
+			if w != "" {
+				return fmt.Sprintf("record %d after a %d-byte line: %s", k, size, w), compared
+			}
+		}
+	}
 	// the same Record value handed to two sibling handlers (what a fan-out handler does)
 	for _, nat := range []int{0, 1, 4, 5, 6, 9, 17, 40} {
 		r := mkRecord(slog.LevelWarn, "fanout", nat, c.Salt+nat, true)
